@@ -201,6 +201,19 @@ func RunItem(it Item) *Result {
 		}
 		x.Close()
 	}
+	suffix := func(x *Exec) {
+		sr := x.FairSuffix(it.Suffix)
+		if sr.Cycles > res.MaxCycles {
+			res.MaxCycles = sr.Cycles
+		}
+		res.Counters["suffixes_run"]++
+		if !sr.Quiescent {
+			res.NotQuiescent++
+			x.Viol = append(x.Viol, ev.Violation{Property: "C06", Key: "not-quiescent",
+				What:   fmt.Sprintf("after %d fair all-pairs cycles the live nodes are not quiescent: %s", sr.Cycles, sr.Reason),
+				Replay: map[string]interface{}{"trace": x.C.Trace, "scenario": it.Scenario}})
+		}
+	}
 	switch it.Mode {
 	case "s1":
 		seen := map[uint64]int{}
@@ -223,6 +236,9 @@ func RunItem(it Item) *Result {
 				seen[d] = rem
 				path = append(path, 0)
 				x.Step(alpha[0])
+			}
+			if it.Suffix > 0 && !x.Dead() {
+				suffix(x)
 			}
 			finish(x, st)
 			for i := len(prefix); i < len(path); i++ {
@@ -258,16 +274,7 @@ func RunItem(it Item) *Result {
 			}
 		}
 		if it.Suffix > 0 && !x.Dead() {
-			sr := x.FairSuffix(it.Suffix)
-			if sr.Cycles > res.MaxCycles {
-				res.MaxCycles = sr.Cycles
-			}
-			if !sr.Quiescent {
-				res.NotQuiescent++
-				x.Viol = append(x.Viol, ev.Violation{Property: "C06", Key: "not-quiescent",
-					What:   fmt.Sprintf("after %d fair all-pairs cycles the live nodes are not quiescent: %s", sr.Cycles, sr.Reason),
-					Replay: map[string]interface{}{"trace": x.C.Trace, "scenario": it.Scenario}})
-			}
+			suffix(x)
 		}
 		finish(x, st)
 	default:
